@@ -86,6 +86,9 @@ def _c19(tier, replay, seed, work, t0):
                     for mv in itertools.product("nbs", repeat=ln):
                         if ln <= 3 or rng.random() < (0.15 if quick else 0.6):
                             cases.append({"kind": "resp", "nframes": n, "err": err, "moves": list(mv)})
+                            if err and (ln <= 3 or rng.random() < 0.3):
+                                # the failing command printed output before its ACK: still exactly n successful frames, then the error
+                                cases.append({"kind": "resp", "nframes": n, "err": err, "partial": True, "moves": list(mv)})
         for i, c in enumerate(cases):
             c["id"] = i
     nrec, traces = _validate(prop, "FrameTrace", "FrameTrace.cfg", binpath, "frame", cases, work, verdict)
@@ -147,6 +150,14 @@ def _c20(tier, replay, seed, work, t0):
     if not cs:
         raise C.ToolError("NamesGen produced nothing")
     case = cs[0]
+    # candidates with ONE character outside ASCII whose code point's low byte runs through all 256 values (among them
+    # letters, `_`, `-`), from the 2-, 3- and 4-byte ranges: a field name cannot carry any of them
+    for b in range(256):
+        for base in (0x100, 0x400, 0x2000, 0x1F300):
+            ch = chr(base + b).encode()
+            case["tag_strings"].append(list(b"Compo" + ch + b"er"))
+            if b % 16 == 1:
+                case["tag_strings"].append(list(ch))
     case["pair_limit"] = 40000 if quick else 10 ** 9
     cp, tp = work.path("names.json"), work.path("names.ndjson")
     with open(cp, "w") as f:
